@@ -49,20 +49,20 @@ func (g *inputGen) named(name string, typ zed.Type) zed.Type {
 }
 
 func (g *inputGen) prim(t *rapid.T) zed.Type {
-	return rapid.SampledFrom([]zed.Type{
+	return Pick(t, []zed.Type{
 		zed.TypeInt64, zed.TypeInt64, zed.TypeInt64, zed.TypeInt64, zed.TypeString, zed.TypeString, zed.TypeString,
 		zed.TypeFloat64, zed.TypeFloat64, zed.TypeBool, zed.TypeUint64, zed.TypeUint8, zed.TypeInt32, zed.TypeFloat32,
 		zed.TypeIP, zed.TypeNet, zed.TypeTime, zed.TypeDuration, zed.TypeBytes, zed.TypeType, zed.TypeNull,
-	}).Draw(t, "prim")
+	}, "prim")
 }
 
 func (g *inputGen) smallRecord(t *rapid.T, depth int) zed.Type {
-	n := rapid.IntRange(1, 3).Draw(t, "nsub")
+	n := 1+Uniform(t, 3, "nsub")
 	names := rapid.Permutation(FieldNames).Draw(t, "subnames")
 	fields := make([]zed.Field, n)
 	for i := range fields {
 		var ft zed.Type
-		if depth > 0 && rapid.IntRange(0, 4).Draw(t, "subdeep") == 0 {
+		if depth > 0 && 0+Uniform(t, 5, "subdeep") == 0 {
 			ft = g.fieldType(t, depth-1)
 		} else {
 			ft = g.prim(t)
@@ -78,7 +78,7 @@ func (g *inputGen) fieldType(t *rapid.T, depth int) zed.Type {
 	if g.rich {
 		hi = 15
 	}
-	k := rapid.IntRange(0, hi).Draw(t, "ftkind")
+	k := Uniform(t, hi+1, "ftkind")
 	if depth <= 0 && k > 4 {
 		k = 0
 	}
@@ -90,7 +90,7 @@ func (g *inputGen) fieldType(t *rapid.T, depth int) zed.Type {
 	case 6:
 		return g.zctx.LookupTypeArray(g.prim(t))
 	case 7:
-		switch rapid.IntRange(0, 2).Draw(t, "setmap") {
+		switch 0+Uniform(t, 3, "setmap") {
 		case 0:
 			return g.zctx.LookupTypeSet(g.prim(t))
 		case 1:
@@ -105,7 +105,7 @@ func (g *inputGen) fieldType(t *rapid.T, depth int) zed.Type {
 		}
 		return g.zctx.LookupTypeUnion([]zed.Type{a, b})
 	case 9:
-		switch rapid.IntRange(0, 2).Draw(t, "namedkind") {
+		switch 0+Uniform(t, 3, "namedkind") {
 		case 0:
 			return g.named("port", zed.TypeInt64)
 		case 1:
@@ -125,7 +125,7 @@ func (g *inputGen) fieldType(t *rapid.T, depth int) zed.Type {
 	case 14:
 		return g.named("foo", g.smallRecord(t, depth-1))
 	default:
-		switch rapid.IntRange(0, 2).Draw(t, "rich2") {
+		switch 0+Uniform(t, 3, "rich2") {
 		case 0:
 			return g.zctx.LookupTypeSet(g.smallRecord(t, depth-1))
 		case 1:
@@ -213,10 +213,10 @@ func DrawInput(t *rapid.T, o InputOpts) gen.Seq {
 	tg := &gen.TypeGen{Zctx: zctx, Opts: gen.TypeOpts{SimpleNames: true, MaxDepth: 2, NoNamed: true}}
 	vg := &gen.ValGen{Zctx: zctx, Types: tg, Opts: gen.ValOpts{Small: true, MaxLen: 3, NullPercent: 10}}
 	vgKey := &gen.ValGen{Zctx: zctx, Types: tg, Opts: gen.ValOpts{Small: true, MaxLen: 3, NoNulls: true}}
-	nshapes := rapid.IntRange(1, o.MaxShapes).Draw(t, "nshapes")
+	nshapes := 1+Uniform(t, o.MaxShapes, "nshapes")
 	shapes := make([]*zed.TypeRecord, nshapes)
 	for i := range shapes {
-		nf := rapid.IntRange(1, 5).Draw(t, "nfields")
+		nf := 1+Uniform(t, 5, "nfields")
 		names := rapid.Permutation(FieldNames).Draw(t, "names")
 		var fields []zed.Field
 		if o.CleanKey {
@@ -230,10 +230,10 @@ func DrawInput(t *rapid.T, o InputOpts) gen.Seq {
 				continue
 			}
 			var ft zed.Type
-			if p := g.pref[name]; p != nil && rapid.IntRange(0, 9).Draw(t, "keeptype") < 7 {
+			if p := g.pref[name]; p != nil && 0+Uniform(t, 10, "keeptype") < 7 {
 				ft = p
 			} else {
-				if name == "ts" && rapid.IntRange(0, 3).Draw(t, "tstime") > 0 {
+				if name == "ts" && 0+Uniform(t, 4, "tstime") > 0 {
 					ft = zed.TypeTime
 				} else {
 					ft = g.fieldType(t, 2)
@@ -246,16 +246,16 @@ func DrawInput(t *rapid.T, o InputOpts) gen.Seq {
 		}
 		shapes[i] = zctx.MustLookupTypeRecord(fields)
 	}
-	n := rapid.IntRange(0, o.MaxLen).Draw(t, "nvals")
+	n := Uniform(t, o.MaxLen+1, "nvals")
 	s := gen.Seq{Zctx: zctx}
 	cur := 0
 	for len(s.Vals) < n {
-		if len(s.Vals) > 0 && rapid.IntRange(0, 6).Draw(t, "dup?") == 0 {
-			s.Vals = append(s.Vals, s.Vals[rapid.IntRange(0, len(s.Vals)-1).Draw(t, "dupof")])
+		if len(s.Vals) > 0 && 0+Uniform(t, 7, "dup?") == 0 {
+			s.Vals = append(s.Vals, s.Vals[Uniform(t, len(s.Vals), "dupof")])
 			continue
 		}
-		if rapid.IntRange(0, 2).Draw(t, "switch?") == 0 {
-			cur = rapid.IntRange(0, nshapes-1).Draw(t, "which")
+		if 0+Uniform(t, 3, "switch?") == 0 {
+			cur = Uniform(t, nshapes, "which")
 		}
 		typ := shapes[cur]
 		var b zcode.Builder
